@@ -151,6 +151,9 @@ def check_class(path: str) -> tuple[int, list, list]:
                 kd = get_tagged_field_default(kf)
                 if not py_equal(kd, default_value(f)) and not (f.kind == "uuid" and kd is not None and kd.int == 0):
                     out.append(("implicit-default-disagrees", f"{fid}: kio resolves {kd!r}, Kafka rule gives {default_value(f)!r}"))
+                if f.kind == "struct" and not f.array and kd is not None and type(kd) is not f.pytype:
+                    out.append(("implicit-default-not-in-type", f"{fid}: kio resolves an instance of {type(kd).__module__}.{type(kd).__qualname__}, "
+                                f"declared is {f.pytype.__module__}.{f.pytype.__qualname__}"))
             except Exception as e:
                 out.append((f"kio-default-resolution-raised:{type(e).__name__}", f"{fid}: {e!r}"))
     # reader / writer derivable, default-only and zero instance round-trip
@@ -202,6 +205,27 @@ def run(ctx: Ctx) -> Report:
                 rep.nontrivial.add(case_hash(fid))
             for sig, msg in fails:
                 rep.add_failure(Failure(sig, msg, {"class": path}, len(msg)))
+    # all tagged struct fields once more in ONE process (the shards above split same-named classes of different versions
+    # over 32 processes): what kio resolves as implicit default must be an instance of the DECLARED class, whichever classes
+    # were resolved before
+    for tag_path in paths:
+        cd = D.describe(D.resolve(tag_path))
+        for f in cd.fields:
+            if f.tag is None or f.kind != "struct" or f.array or f.has_default:
+                continue
+            try:
+                from kio.serial._implicit_defaults import get_tagged_field_default
+
+                kf = next(x for x in dataclasses.fields(cd.cls) if x.name == f.name)
+                kd = get_tagged_field_default(kf)
+            except Exception:
+                continue  # reported per class above
+            rep.evaluations += 1
+            if kd is not None and type(kd) is not f.pytype:
+                rep.add_failure(Failure("implicit-default-not-in-type",
+                                        f"{tag_path}.{f.name}: after resolving other classes' defaults in the same process kio resolves an instance of "
+                                        f"{type(kd).__module__}.{type(kd).__qualname__}, declared is {f.pytype.__module__}.{f.pytype.__qualname__}",
+                                        {"class": None}))
     rep.extra["classes"] = len(paths)
     rep.extra["fields"] = n_fields
     rep.samples = [
